@@ -95,6 +95,7 @@ const (
 	OFPToUBV
 	OFPToFP  // fp->fp conversion (RNE)
 	OFPFromBits
+	OFPRound // fp.roundToIntegral, P1 = mode (0 RNA, 1 RNE, 2 RTZ, 3 RTP, 4 RTN)
 	OUF // uninterpreted function application: Name, Args
 	OFPStructEq
 )
@@ -708,6 +709,31 @@ func (f *Factory) FPAbs(a *Term) *Term {
 	return f.mk(OFPAbs, a.Sort, a)
 }
 
+var fpRoundModes = []string{"RNA", "RNE", "RTZ", "RTP", "RTN"}
+
+// FPRound rounds a float to an integral value in the given mode
+// (0 nearest-ties-away = math.Round, 1 nearest-even, 2 toward zero = Trunc,
+// 3 up = Ceil, 4 down = Floor).
+func (f *Factory) FPRound(a *Term, mode int) *Term {
+	if a.IsConst() {
+		x := fpOf(a)
+		switch mode {
+		case 0:
+			x = math.Round(x)
+		case 1:
+			x = math.RoundToEven(x)
+		case 2:
+			x = math.Trunc(x)
+		case 3:
+			x = math.Ceil(x)
+		case 4:
+			x = math.Floor(x)
+		}
+		return f.fpConst(a.Sort, x)
+	}
+	return f.intern(&Term{Op: OFPRound, Sort: a.Sort, P1: mode, Args: []*Term{a}})
+}
+
 func (f *Factory) FPCmp(op Op, a, b *Term) *Term {
 	if a.Sort != b.Sort || a.Sort.Kind != KFP {
 		panic("smt fp cmp sort mismatch")
@@ -927,6 +953,8 @@ func body(n *Term) string {
 		fmt.Fprintf(&sb, "(%s RNE", toFP(n.Sort))
 	case OFPFromBits:
 		fmt.Fprintf(&sb, "(%s", toFP(n.Sort))
+	case OFPRound:
+		fmt.Fprintf(&sb, "(fp.roundToIntegral %s", fpRoundModes[n.P1])
 	case OUF:
 		if len(n.Args) == 0 {
 			return n.Name
@@ -1070,6 +1098,8 @@ func (f *Factory) rebuild(t *Term, a []*Term) *Term {
 		return f.FPNeg(a[0])
 	case OFPAbs:
 		return f.FPAbs(a[0])
+	case OFPRound:
+		return f.FPRound(a[0], t.P1)
 	case OFPEq, OFPLt, OFPLe:
 		return f.FPCmp(t.Op, a[0], a[1])
 	case OFPIsNaN:
